@@ -183,7 +183,7 @@ func c17Exec(run *ev.Run, c ev.Case) {
 			}
 		case "conn":
 			for second := 0; second < len(c17Cmds); second++ {
-				for _, oc := range []string{"ok", "cc:c1", "ccb:d4", "trunc", "garbage-then-ok", "busy-then-ok", "lost", "refused"} {
+				for _, oc := range []string{"ok", "cc:c1", "ccb:d4", "trunc", "garbage-then-ok", "busy-then-ok", "lost", "refused", "request-lost"} {
 					for _, inSess := range []bool{false, true} {
 						c17ConnPair(run, c17Conn{First: b.Count, Second: second, FirstOutcome: oc, InSession: inSess, Suite: (b.Count + second) % 9, ReuseCmd: b.Count == second, Seed: b.Seed})
 						if oc == "ok" || oc == "ccb:d4" {
